@@ -39,8 +39,21 @@ PROPS = {
     "C12": dict(title="The local filter implements its window predicate", level="other", bounded=["C12"], design="8/C12",
                 explanation="LocalBioFilter.valid against filter_spec and its metamorphic lemmas.",
                 technique="postcondition of LocalBioFilter.valid against the window predicate + bounded exhaustive short strings"),
-    "C13": dict(title="Vertex indices are k-mers, arcs are shift-append", level="other", bounded=["C13"], design="8/C13",
-                explanation="obtain_latters/obtain_formers/get_complete_accessor against k-mer arithmetic.",
+    "C13": dict(title="Vertex indices are k-mers, arcs are shift-append", level="proof", bounded=["C13"], design="8/C13",
+                proof=["dsw.graphized.obtain_latters", "dsw.graphized.obtain_formers", "dsw.graphized.get_complete_accessor",
+                       "dsw.operation.dna_to_number#int", "dsw.operation.number_to_dna#int",
+                       "harness.c13_latter_is_shift_append", "harness.c13_former_is_shift_prepend", "harness.c13_successor_of_predecessor",
+                       "harness.c13_predecessor_of_successor", "harness.c16_number_dna_back", "harness.c16_dna_roundtrip_int",
+                       "lemma.pv_split", "lemma.mod_small", "lemma.pv_bound", "lemma.ipow_mono", "lemma.pv_store_frame", "lemma.pv_inj",
+                       "lemma.pv_zero", "lemma.pv_leading_zeros", "lemma.pv_ext"],
+                explanation="Contracts on the real obtain_latters / obtain_formers (successor j = (v mod 4^(k-1))*4 + j, predecessor f = v div 4 + "
+                            "f*4^(k-1), all in range) and get_complete_accessor (column j of every row holds the j-th successor); the string-level "
+                            "statement (drop first nucleotide + append / drop last + prepend, on k-mers of every length) and the predecessor/"
+                            "successor duality are client harnesses over those contracts and the integer paths of dna_to_number / number_to_dna.",
+                claim="Deductive: all obligations discharged for every k >= 1 and every vertex (symbolic 4^k), no bound. The clause 'every graph the "
+                      "library builds or converts holds -1 or that successor' is the is_accessor postcondition of the builders, decided under C11/C03/C14.",
+                note="Trusted: pyvc's encoding (DESIGN 2), numpy ones/indexing contracts for get_complete_accessor, codes_of definition; "
+                     "z3's built-in div/mod axioms for a symbolic divisor 4^(k-1) (nonlinear).",
                 technique="postconditions of obtain_latters/obtain_formers (modular arithmetic VCs) + k-mer shift lemmas + bounded exhaustive small k"),
     "C14": dict(title="The three graph representations are interchangeable", level="other", bounded=["C14"], design="8/C14",
                 explanation="Conversions between accessor, latter map and adjacency matrix; leaf queries.",
